@@ -231,6 +231,14 @@ def prim_to_json(el):
 META_TAGS = ("user_intent", "bot_intent", "user_action", "bot_action")
 
 
+def _meta_val(v):
+    if isinstance(v, bool):
+        return {"b": v}
+    if isinstance(v, str):
+        return {"e": expr_to_json('"' + v.replace('"', '\\"') + '"')}
+    return {"o": None}
+
+
 def flow_to_json(cfg):
     lp = cfg.loop_priority
     return {
@@ -241,7 +249,7 @@ def flow_to_json(cfg):
         "returns": [{"name": p.name, "default": expr_to_json(p.default_value_expr) if p.default_value_expr else None} for p in cfg.return_members],
         "loop_id": cfg.loop_id,
         "loop_priority": int(lp) if isinstance(lp, int) and not isinstance(lp, bool) else 0,
-        "meta": [t for t in META_TAGS if cfg.has_meta_tag(t)],
+        "meta": [[t, _meta_val(cfg.meta_tag(t))] for t in META_TAGS if cfg.has_meta_tag(t)],
     }
 
 
